@@ -115,3 +115,90 @@ func Harness_NS_Pivot() {
 	vhAssert(vhSpanningTree(g, nodes), "pivot-keeps-a-spanning-tree")
 	vhAssert(after <= before, "pivot-does-not-increase-weighted-total-edge-length")
 }
+
+// Harness_NS_Balance (C03 / C10 lemma): normalize followed by vbalance from an ARBITRARY feasible
+// layering (symbolic layers, minimum lengths 1): every edge stays feasible, the lowest layer is 0,
+// no layer index grows beyond the previous maximum and the total edge length is unchanged (only
+// nodes with equal in- and out-degree move).
+func Harness_NS_Balance() {
+	g, nodes := vhGraph()
+	for _, n := range nodes {
+		n.Layer = vhInt("layer", -3, 2*len(nodes))
+	}
+	before, hiBefore, loBefore := 0, -100, 100
+	for _, e := range g.Edges {
+		vhAssume(slack(e) >= 0)
+		before += e.To.Layer - e.From.Layer
+	}
+	for _, n := range nodes {
+		hiBefore, loBefore = max(hiBefore, n.Layer), min(loBefore, n.Layer)
+	}
+	normalize(g)
+	vbalance(g)
+	vhReach("balanced")
+	after, lo, hi := 0, 100, -100
+	for _, e := range g.Edges {
+		vhAssert(slack(e) >= 0, "balancing-keeps-every-edge-feasible")
+		after += e.To.Layer - e.From.Layer
+	}
+	for _, n := range nodes {
+		vhObserveInt("layer", n.Layer)
+		lo, hi = min(lo, n.Layer), max(hi, n.Layer)
+	}
+	vhAssert(lo == 0, "lowest-layer-is-zero")
+	vhAssert(hi <= hiBefore-loBefore, "balancing-adds-no-layer")
+	vhAssert(after == before, "balancing-keeps-total-edge-length")
+}
+
+// Harness_NS_Feasible: the whole real execNetworkSimplex (feasible tree, pivots, normalize,
+// vbalance) on a connected DAG cube with SYMBOLIC minimum lengths per edge (0..2): the result is
+// feasible and normalised. Symbolic lengths make the tight-tree growth shift layers below zero on
+// small shapes, which is what larger graphs do with unit lengths.
+func Harness_NS_Feasible() {
+	g, nodes := vhGraph()
+	for _, e := range g.Edges {
+		e.Delta = vhInt("delta", 0, 2)
+	}
+	execNetworkSimplex(g, graph.Params{NetworkSimplexThoroughness: 28, NetworkSimplexBalance: graph.OptionNsBalanceV})
+	vhReach("returned")
+	lowest := nodes[0].Layer
+	for _, n := range nodes {
+		vhObserveInt("layer", n.Layer)
+		lowest = min(lowest, n.Layer)
+	}
+	vhAssert(lowest == 0, "layers-normalised")
+	for _, e := range g.Edges {
+		vhAssert(slack(e) >= 0, "every-edge-at-least-its-minimum-length")
+	}
+}
+
+// Harness_NS_Optimal: the whole real execNetworkSimplex without balancing and with an iteration
+// budget (28*100) far beyond the engine's loop bound - a run that would only end at the cap is cut
+// by an unwinding query instead of being judged - on a connected DAG cube with SYMBOLIC minimum
+// lengths (0..2, unit weights): no feasible layering alt[] (solver variables) is cheaper.
+func Harness_NS_Optimal() {
+	g, nodes := vhGraph()
+	for _, e := range g.Edges {
+		e.Delta = vhInt("delta", 0, 2)
+	}
+	execNetworkSimplex(g, graph.Params{NetworkSimplexThoroughness: 28, NetworkSimplexMaxIterFactor: 100, NetworkSimplexBalance: 0})
+	vhReach("returned")
+	alt := make([]int, len(nodes))
+	for i := range nodes {
+		alt[i] = vhInt("alt", 0, 12)
+	}
+	total, totalAlt := 0, 0
+	feasible := true
+	for _, e := range g.Edges {
+		total += e.To.Layer - e.From.Layer
+		a, b := alt[vhNodeIdx(nodes, e.From)], alt[vhNodeIdx(nodes, e.To)]
+		if b-a < e.Delta {
+			feasible = false
+		}
+		totalAlt += b - a
+	}
+	if feasible {
+		vhReach("alternative-feasible")
+		vhAssert(totalAlt >= total, "total-edge-length-is-minimal")
+	}
+}
